@@ -72,7 +72,7 @@ type bvhDesc struct {
 	Time    float64   `json:"time,omitempty"` // the ray's time (T0 <= Time <= T1)
 	Pad     [2]int    `json:"pad,omitempty"`  // objects in the slice before / after the range [start, end)
 	Direct  bool      `json:"direct,omitempty"`
-	RawBox  bool      `json:"rawbox,omitempty"` // spheres report rendering.Sphere.BoundingBox itself
+	RawBox  bool      `json:"rawbox,omitempty"` // (replays of round 4; spheres always report Sphere.BoundingBox now)
 }
 
 type sphDesc struct {
@@ -429,27 +429,9 @@ func octCase(d setDesc) (c hx.Case, st octStats) {
 // ---------------------------------------------------------------------------------------------
 // running one BVH case
 
-// boxedSphere: a rendering.Sphere as a BVH member whose BoundingBox is the box of the sphere it wraps:
-// centre +- radius at both ends of the time window (Sphere.BoundingBox itself is only half as wide,
-// see notes/C16.md: that finding has its own stream behind -rawsphere).
-type boxedSphere struct {
-	s  *rendering.Sphere
-	at func(t float64) vector3.Float64
-	r  float64
-	id int
-}
-
-func (b boxedSphere) Hit(r *rendering.TemporalRay, min, max float64, rec *rendering.HitRecord) bool {
-	return b.s.Hit(r, min, max, rec)
-}
-
-func (b boxedSphere) BoundingBox(start, end float64) *geometry.AABB {
-	rr := vector3.Fill(b.r)
-	cs, ce := b.at(start), b.at(end)
-	box := geometry.NewAABBFromPoints(cs.Sub(rr), cs.Add(rr), ce.Sub(rr), ce.Add(rr))
-	return &box
-}
-
+// Spheres are BVH members as they are: rendering.Sphere with its own BoundingBox (as wide as the sphere
+// since f622dca; before, the box reached only radius/2 from the centre and BVHNode.Hit / Tree.Hit missed
+// hits the exhaustive scan finds: FailKey bvh:sphere-box-half-size on the cases where that shows).
 var rawSphereID = map[*rendering.Sphere]int{}
 
 func (d bvhDesc) sphere(k, id int) rendering.Hittable {
@@ -468,11 +450,8 @@ func (d bvhDesc) sphere(k, id int) rendering.Hittable {
 	} else {
 		s = rendering.NewAnimatedSphere(sd.R, nil, at)
 	}
-	if d.RawBox {
-		rawSphereID[s] = id
-		return s
-	}
-	return boxedSphere{s: s, at: at, r: sd.R, id: id}
+	rawSphereID[s] = id
+	return s
 }
 
 func bvhCase(d bvhDesc) (c hx.Case) {
@@ -628,7 +607,7 @@ func bvhCase(d bvhDesc) (c hx.Case) {
 		agree = agree && e == want
 	}
 	if !agree {
-		if d.RawBox {
+		if ns > 0 {
 			c.FailKey = "bvh:sphere-box-half-size"
 		} else if d.Lo != 0 {
 			c.FailKey = "bvh:hit-max-measured-from-min"
@@ -649,15 +628,6 @@ func main() {
 	// BVHNode.Hit / HitList.Hit are no nearest-hit searches (fixes/c16-tri-hit-max-offset); the cases on
 	// which that shows carry FailKey bvh:hit-max-measured-from-min.
 	bvhMin := flag.Bool("bvhmin", false, "generate BVH rays with a non-zero lower bound")
-	// -rawsphere: also generate BVHs whose spheres report rendering.Sphere.BoundingBox itself.  Off by default:
-	// that box is only half as wide as the sphere (NewAABB takes a size, it is given the radius), so a BVH
-	// over spheres misses hits the exhaustive scan finds (fixes/c16-sphere-bounding-box); the cases on which
-	// that shows carry FailKey bvh:sphere-box-half-size.
-	rawSphere := flag.Bool("rawsphere", false, "generate BVHs over spheres with rendering.Sphere's own bounding box")
-	// -emptystrip: also build the tree of a line strip without indices (PrimitiveCount() = -1: on the pinned
-	// code Mesh.OctTree… panics in make([]Element, -1); fixes/c16-empty-line-strip-octree; FailKey
-	// oct:index-less-line-strip-panics)
-	emptyStrip := flag.Bool("emptystrip", false, "generate the line strip without indices")
 	run := hx.ParseFlags("C16", "Check.C16")
 	if run.Tier == "thorough" {
 		run.ShardMax = 48 // smaller shards: the big sets make a shard's coqc process heavy
@@ -720,9 +690,6 @@ func main() {
 		if d.Lo != 0 {
 			run.Count("bvh:min!=0")
 		}
-		if d.RawBox {
-			run.Count("bvh:raw-sphere-box")
-		}
 		run.Add(c)
 	}
 	for _, in := range run.Inputs() {
@@ -764,17 +731,17 @@ func main() {
 				O: [3]float64{0, 0.5, 0}, Dir: [3]float64{0, 0, 1}, Lo: -40, Hi: 1e6, Seed: seed})
 		}
 	}
-	if *emptyStrip {
+	{ // the line strip without indices (PrimitiveCount() = -1): the empty tree since 468e9a1, a panic before
 		for _, depth := range []int{-1, 0, 2} {
 			for _, atr := range []string{"", "Rest"} {
 				addOct(setDesc{Kind: "line", Verts: [][3]float64{}, Idx: []int{}, Depth: depth, Attr: atr})
 			}
 		}
 	}
-	if *rawSphere { // the reproducer of fixes/c16-sphere-bounding-box
+	{ // the reproducer of fixes/c16-sphere-bounding-box (f622dca)
 		for seed := int64(1); seed <= 2; seed++ {
 			addBvh(bvhDesc{Spheres: []sphDesc{{C0: [3]float64{0, 0, 10}, C1: [3]float64{0, 0, 10}, R: 2}, {C0: [3]float64{20, 0, 10}, C1: [3]float64{20, 0, 10}, R: 2}},
-				O: [3]float64{-1.5, 0, 0}, Dir: [3]float64{0, 0, 1}, Lo: 0, Hi: 1e6, Seed: seed, RawBox: true})
+				O: [3]float64{-1.5, 0, 0}, Dir: [3]float64{0, 0, 1}, Lo: 0, Hi: 1e6, Seed: seed})
 		}
 	}
 	if *bvhMin { // the reproducer of fixes/c16-tri-hit-max-offset under four split-axis seeds
@@ -794,9 +761,6 @@ func main() {
 			d := genBvh(r, run.Tier == "thorough")
 			if *bvhMin && r.Chance(1, 2) {
 				d.Lo = hx.Pick(r, []float64{0.001, 0.5, 1, 3, 3, -2.5, -40})
-			}
-			if *rawSphere && len(d.Spheres) > 0 && r.Chance(1, 2) {
-				d.RawBox = true
 			}
 			addBvh(d)
 			continue
